@@ -169,6 +169,7 @@ EXPORT int swprintf_s(wchar_t *restrict dest, rsize_t dmax,
 
 #if defined(HAVE_WCSSTR) || !defined(SAFECLIB_DISABLE_EXTENSIONS)
     if (unlikely((p = safec_wfmt_find_n(fmt)) != NULL)) {
+        *dest = L'\0';
         invoke_safe_str_constraint_handler("swprintf_s: illegal %n",
                                            (void *)dest, EINVAL);
         return -(EINVAL);
